@@ -568,7 +568,13 @@ func (m *c17Machine) ruleDo(t *rapid.T) {
 	if ph == c17Idle {
 		k = rapid.SampledFrom([]int{1, 1, 1, 2, 3}).Draw(t, "k")
 	}
+	if rapid.IntRange(0, 11).Draw(t, "crowd") == 0 {
+		k = rapid.IntRange(60, 140).Draw(t, "crowdSize") // a crowd of holders at once
+	}
 	y := rapid.IntRange(0, 3).Draw(t, "yields")
+	if k > 3 {
+		y = 0
+	}
 	var ids []string
 	for i := 0; i < k; i++ {
 		h := m.launchDo()
@@ -596,6 +602,37 @@ func (m *c17Machine) ruleDone(t *rapid.T) {
 	h := m.out[rapid.IntRange(0, len(m.out)-1).Draw(t, "which")]
 	m.releaseSync(h)
 	m.tr("done(h%d)", h.id)
+	m.settle()
+}
+
+// ruleDoNil: Do(nil) panics (documented) — and, being refused, must not count as a holder: everything else goes
+// on exactly as if the call had not been made. Not issued while an instance is stopping (the call would park on
+// the Worker's mutex).
+func (m *c17Machine) ruleDoNil(t *rapid.T) {
+	if m.phase() == c17Stopping {
+		t.Skip("stopping")
+	}
+	wk := m.w.wk
+	_, pv := vkit.Call(func() any { return wk.Do(nil) })
+	if pv == nil {
+		m.fail("C17/do-nil-accepted", "Do(nil) returned instead of panicking")
+	}
+	m.tr("do(nil)=panic")
+	m.settle()
+}
+
+// ruleDoneMany: every holder but a drawn few lets go, one after the other, without settling in between.
+func (m *c17Machine) ruleDoneMany(t *rapid.T) {
+	if len(m.out) < 4 {
+		t.Skip("no crowd")
+	}
+	keep := rapid.IntRange(0, 2).Draw(t, "keep")
+	n := 0
+	for len(m.out) > keep {
+		m.releaseSync(m.out[len(m.out)-1])
+		n++
+	}
+	m.tr("doneMany(%d, %d keep holding)", n, keep)
 	m.settle()
 }
 
@@ -796,7 +833,7 @@ func c17RunStep(t *rapid.T, st *vkit.Stats) {
 	m.w.exitYields = rapid.SampledFrom([]int{0, 0, 1, 4}).Draw(t, "fnExitYields")
 	m.tr("step(fnY=%d/%d)", m.w.startYields, m.w.exitYields)
 
-	w := map[string]int{"do": 4, "done": 3, "exit": 2, "stopdo": 4, "race": 6, "advance": 2}
+	w := map[string]int{"do": 4, "done": 3, "exit": 2, "stopdo": 4, "race": 6, "advance": 2, "doneMany": 3, "doNil": 1}
 	actions := map[string]func(*rapid.T){}
 	add := func(name string, f func(*rapid.T)) {
 		for i := 0; i < w[name]; i++ {
@@ -809,6 +846,8 @@ func c17RunStep(t *rapid.T, st *vkit.Stats) {
 	add("stopdo", m.ruleStopDo)
 	add("race", m.ruleRace)
 	add("advance", m.ruleAdvance)
+	add("doneMany", m.ruleDoneMany)
+	add("doNil", m.ruleDoNil)
 	t.Repeat(vkit.NoStarve(actions, nil))
 
 	// ---- teardown: everybody lets go, the instance is let out, nothing may remain
